@@ -334,6 +334,7 @@ class Node:
                         raise UniqueConstraintError(
                             "Node.data already exists in parent"
                         )
+            hash(new_data_id)  # unhashable: raise TypeError before the map is touched
             if has_clones:
                 if with_clones:
                     # Move the whole slot (but check if new id already exist)
